@@ -1,4 +1,5 @@
-import MesaModel.Model.StepCounter
+import MesaModel.Model.StepMro
+import MesaModel.Model.StepNested
 /-!
 Line-protocol driver of the step-counter model (C05).  Producer: harness/c05.py.
 
@@ -6,9 +7,14 @@ Line-protocol driver of the step-counter model (C05).  Producer: harness/c05.py.
   class <lvl> <lvl> …      a Model subclass chain, most derived class first; <lvl> = 3 bits
                            overrides/callsSuper/takesArgs (e.g. 110); `class -` = `mesa.Model` itself
                            → ok class=K
+  cdef <bases|-> <lvl>     a class with several bases (multiple inheritance): bases = comma-separated ids of classes
+                           defined by earlier `cdef` lines, 0 = `mesa.Model`, `-` = no base (a plain mixin class)
+                           → ok class=K mro=K,…   |  err Type (duplicate base, no consistent MRO)
+  mnew c stopAt            instantiate `cdef` class c (a Model subclass); bodies are labelled by class id
   new c stopAt             instantiate class c; its bodies clear `running` at the stopAt-th execution
                            → ok inst=K …
-  step i a1 a2 …           model_i.step(a1, a2, …)
+  link i j | link i -      from now on every step body of model_i also calls model_j.step() (j > i: a sub-model); `-` unlinks
+  step i a1 a2 …           model_i.step(a1, a2, …); nested calls are reported as ` sub=j>…;k>…` in the order they start
   run i                    model_i.run_model()
   rearm i k                model_i.running = True; stop k body executions from now
   halt i                   model_i.running = False
@@ -28,14 +34,28 @@ def parseLevel (s : String) : Option Level :=
 structure St where
   classes : List Hier
   insts : List Inst
+  table : Table := Table.init          -- `cdef` classes: their MROs …
+  lvls : List Level := [default]       -- … and how each defines `step` (entry 0 = `mesa.Model`, unused)
+  labels : List (List Nat) := []       -- per instance: the label its bodies record, by depth
+  links : List (Option Nat) := []      -- per instance: the sub-model its step bodies step
 
-def fmtEntry (e : Entry) : String :=
-  s!"{e.depth}@{e.steps}" ++ (if e.args.isEmpty then "" else "/" ++ ".".intercalate (e.args.map toString))
+def fmtEntry (lab : List Nat) (e : Entry) : String :=
+  s!"{lab[e.depth]?.getD e.depth}@{e.steps}" ++ (if e.args.isEmpty then "" else "/" ++ ".".intercalate (e.args.map toString))
+
+def parseBases (s : String) : Option (List Nat) :=
+  if s = "-" then some [] else (s.splitOn ",").mapM (·.toNat?)
 
 def fmtAll (w : List Inst) : String :=
   s!"steps={",".intercalate (w.map (toString ·.steps))} running={",".intercalate (w.map fun i => if i.running then "1" else "0")}"
 
 def fuel : Nat := 100000
+
+def fmtCall (st : St) (c : Call) : String :=
+  ",".intercalate (c.entries.map (fmtEntry (st.labels[c.inst]?.getD [])))
+
+/-- the nested calls, in the order they start: ` sub=j>entries;k>entries` (nothing if there are none) -/
+def fmtSubs (st : St) (subs : List Call) : String :=
+  if subs.isEmpty then "" else " sub=" ++ ";".intercalate (subs.map fun c => s!"{c.inst}>{fmtCall st c}")
 
 def stepLine (st : St) (ws : List String) : St × String :=
   let bad := (st, "bad-op")
@@ -51,29 +71,61 @@ def stepLine (st : St) (ws : List String) : St × String :=
       match st.classes[c]? with
       | some h =>
         let w := st.insts ++ [Inst.new h k]
-        ({ st with insts := w }, s!"ok inst={st.insts.length} || {fmtAll w}")
+        ({ st with insts := w, labels := st.labels ++ [List.range h.length], links := st.links ++ [none] },
+         s!"ok inst={st.insts.length} || {fmtAll w}")
       | none => bad
+    | _, _ => bad
+  | ["cdef", bs, lv] =>
+    match parseBases bs, parseLevel lv with
+    | some bases, some L =>
+      if bases.all (· < st.table.length) then
+        match st.table.define bases with
+        | some T' =>
+          ({ st with table := T', lvls := st.lvls ++ [L] },
+           s!"ok class={st.table.length} mro={",".intercalate ((T'.mro st.table.length).map toString)}")
+        | none => (st, "err Type")
+      else bad
+    | _, _ => bad
+  | ["mnew", c, k] =>
+    match c.toNat?, k.toNat? with
+    | some c, some k =>
+      if c < st.table.length && st.table.isModel c then
+        let h := st.table.hier (fun j => st.lvls[j]?.getD default) c
+        let w := st.insts ++ [Inst.new h k]
+        ({ st with insts := w, labels := st.labels ++ [st.table.labels c], links := st.links ++ [none] },
+         s!"ok inst={st.insts.length} || {fmtAll w}")
+      else bad
+    | _, _ => bad
+  | ["link", i, j] =>
+    match i.toNat?, (if j = "-" then some none else j.toNat?.map some) with
+    | some i, some j =>
+      if i < st.insts.length && (match j with | some j => i < j && j < st.insts.length | none => true) then
+        ({ st with links := st.links.set i j }, s!"ok || {fmtAll st.insts}")
+      else bad
     | _, _ => bad
   | "step" :: i :: args =>
     match i.toNat?, args.mapM (·.toInt?) with
     | some i, some args =>
       match st.insts[i]? with
-      | some x =>
-        let r := callStep x args
-        let w := apply st.insts (.step i args)
-        ({ st with insts := w },
-         (if r.2.2 then "ok" else "err Type") ++ s!" log={",".intercalate (r.2.1.map fmtEntry)} || {fmtAll w}")
+      | some _ =>
+        let r := stepNested st.links (st.insts.length + 1) st.insts i args
+        match r.2 with
+        | c :: subs =>
+          ({ st with insts := r.1 },
+           (if c.ok then "ok" else "err Type") ++ s!" log={fmtCall st c}{fmtSubs st subs} || {fmtAll r.1}")
+        | [] => bad
       | none => bad
     | _, _ => bad
   | ["run", i] =>
     match i.toNat? with
     | some i =>
       match st.insts[i]? with
-      | some x =>
-        match runModel fuel x with
-        | some (_, es) =>
-          let w := apply st.insts (.run i fuel)
-          ({ st with insts := w }, s!"ok log={",".intercalate (es.map fmtEntry)} || {fmtAll w}")
+      | some _ =>
+        match runNested st.links fuel st.insts i with
+        | some (w, cs) =>
+          let own := cs.filter (·.inst == i)
+          ({ st with insts := w },
+           s!"ok log={",".intercalate (own.flatMap fun c => c.entries.map (fmtEntry (st.labels[i]?.getD [])))}{fmtSubs st (cs.filter (·.inst != i))} || {fmtAll w}")
         | none => (st, "err Fuel")
       | none => bad
     | none => bad
